@@ -297,8 +297,15 @@ func RunPipe(t *testing.T, sc *Scenario, capture bool, record bool) *PipeResult 
 	if res.Err != nil {
 		res.ErrText = res.Err.Error()
 	}
+	// determinism self-test: fold everything observable of this execution
+	RunLogHash = (RunLogHash ^ res.Hash ^ hash64(res.ErrText) ^ hash64(res.Log)*3 ^ hash64(res.Out)*5 ^
+		uint64(res.FS.Closes)<<40 ^ uint64(res.FS.Reads)<<20 ^ uint64(res.Steps) ^ hash64(res.ExitPanic)*7 ^ hash64(fmt.Sprint(res.Choices))*11) * 1099511628211
 	return res
 }
+
+// RunLogHash accumulates, per run, a hash over the event logs and observable
+// results of every pipeline execution; the worker resets it before each run.
+var RunLogHash uint64
 
 var reHeader = regexp.MustCompile(`^goroutine (\d+) \[([^\]]*)\]:`)
 
